@@ -171,6 +171,40 @@ def gen_cancel_drain(rng):
     return Case(rules, ops)
 
 
+def gen_cancel_scan(rng):
+    """directed: a chain of rules is built, then a build that only SCANS (nothing changed, or only the leaf) is
+    cancelled at the n-th event of its trace - i.e. from inside a callback, between the end of one rule's scan and the
+    resumption of its parent's - then the leaf input changes and the chain is built again ON THE SAME ENGINE: no rule
+    may keep a scan verdict from the cancelled build."""
+    nin = 1 + rng.below(2)
+    rules = {k: Rule(k, 0) for k in range(1, nin + 1)}
+    depth = 2 + rng.below(4)
+    ks = list(range(nin + 1, nin + 1 + depth))
+    for i, k in enumerate(ks):
+        r = Rule(k, 1)
+        r.sigBase = rng.below(3)
+        r.deferred = 1 if rng.chance(1, 4) else 0
+        r.statics.append((ks[i - 1] if i else 1, 1, 0))
+        if nin == 2 and rng.chance(1, 3):
+            r.statics.append((2, 2, rng.choice([0, 2])))
+        rules[k] = r
+    top = ks[-1]
+    ops = [{"op": "M", "slot": 1, "val": 101}, {"op": "M", "slot": 2, "val": 102},
+           {"op": "B", "key": top, "cancel_at": 0, "mode": 0, "items": []}]
+    val = 103
+    for rnd in range(1 + rng.below(3)):
+        if rng.chance(1, 3):
+            ops.append({"op": "M", "slot": 1, "val": val})
+            val += 1
+        ops.append({"op": "B", "key": top, "cancel_at": 1 + rng.below(4 * depth + 4), "mode": 0, "items": []})
+        ops.append({"op": "M", "slot": 1, "val": val})
+        val += 1
+        ops.append({"op": "B", "key": rng.choice([top, top, ks[rng.below(len(ks))]]), "cancel_at": 0, "mode": 0, "items": []})
+        if rng.chance(1, 4):
+            ops.append({"op": "E"})
+    return Case(rules, ops)
+
+
 def gen_latent_cycle(rng):
     """directed: a cycle that exists only AFTER an input changed, and that closes through edges an earlier,
     acyclic build already RECORDED (value, single-use or must-follow).  Y = head of a chain requests input I and,
